@@ -192,3 +192,15 @@ def run(ctx):
     ctx.check("own-inclusion", "leaf-and-proof-are-this-requests(C02)", not bad2, "leaf definition and INDX/PATH assembly hold (C02: %d instances)" % len(mine2),
               "a response does not prove the inclusion of the request it answers: " + (bad2[0]["detail"] if bad2 else ""), bad2[0].get("loc") if bad2 else None)
     ctx.floor("own-inclusion", len(mine2), 8, "C02 leaf-definition / response-assembly instances")
+
+    # ------------------------------------------------------------------ "every accepted request causes exactly one datagram": a request that was read is
+    # answered in the same pass (batch-lifecycle above); a request that is still queued in the socket must get its pass.  C08's wake-up rules (level-
+    # triggered registration of sources whose handler does a bounded amount of work per event, bounded loops) are obligations of C09 too: with
+    # an edge-triggered socket and a bounded number of batches per event the surplus of a burst is answered late or never.
+    c8 = importlib.import_module("rules.C08")
+    sub8 = Ctx("C08", P, ctx.repo, "quick", ctx.feature)
+    c8.run(sub8)
+    mine8 = [i for i in sub8.instances if i["rule"] == "wake-up"]
+    bad8 = [i for i in mine8 if not i["ok"]]
+    ctx.check("wake-up", "queued-requests-get-their-pass(C08)", not bad8 and len(mine8) >= 3, "the request socket keeps signalling while datagrams are pending (C08: %d wake-up instances)" % len(mine8),
+              "requests left in the socket after one pass may never be read: " + (bad8[0]["detail"] if bad8 else "wake-up anchors missing"), bad8[0].get("loc") if bad8 else None)
